@@ -249,6 +249,35 @@ func genNegHeader(r *hx.Rand, kind int) (string, bool) {
 	return b.String(), clean
 }
 
+// genLongHeader: very many elements with the decisive one at the far end - a wildcard of middling weight
+// near the front, fillers that match no offer, and in the tail an offer's own range with q=0 or with the
+// best weight. Whatever a parser does after its n-th element shows in the answer.
+func genLongHeader(r *hx.Rand, kind int, offers []string) string {
+	wild, filler := "*/*", func(i int) string { return "x-f" + strconv.Itoa(i%7) + "/y" + strconv.Itoa(i) }
+	if kind != kAccept {
+		wild, filler = "*", func(i int) string { return "x-f" + strconv.Itoa(i) }
+	}
+	n := hx.Pick(r, []int{14, 15, 16, 17, 20, 31, 32, 33, 40, 64, 65, 100, 129, 300})
+	parts := make([]string, 0, n+2)
+	for i := 0; i < n; i++ {
+		parts = append(parts, filler(i))
+	}
+	parts[r.Intn(3)] = wild + ";q=0." + strconv.Itoa(r.Range(1, 8))
+	tail := "x-none"
+	if len(offers) > 0 {
+		tail = strings.ToLower(strings.TrimSpace(hx.Pick(r, offers)))
+		if kind == kAccept {
+			tail = map[string]string{"json": "application/json", "html": "text/html", "xml": "application/xml", "text": "text/plain",
+				"txt": "text/plain", "png": "image/png", "css": "text/css", "webp": "image/webp"}[tail]
+			if tail == "" {
+				tail = "text/html"
+			}
+		}
+	}
+	parts = append(parts, tail+hx.Pick(r, []string{";q=0", ";q=0", ";q=0.9", "", ";q=0.001"}))
+	return strings.Join(parts, hx.Pick(r, []string{",", ", "}))
+}
+
 func genOffers(r *hx.Rand, kind int) ([]string, bool) {
 	pool := mediaOffers
 	if kind != kAccept {
@@ -293,6 +322,9 @@ func genNeg(r *hx.Rand) *negCase {
 		}
 		if r.Chance(1, 4) {
 			offers[kind], go_[kind] = genOffers(r, kind)
+		}
+		if r.Chance(1, 20) {
+			cur[kind], gh[kind] = genLongHeader(r, kind, offers[kind]), true
 		}
 		call := negCall{kind, cur[kind], offers[kind], gh[kind] && go_[kind], 0}
 		if nc := strings.Count(call.Header, ","); nc > 0 && r.Chance(1, 6) {
@@ -430,6 +462,9 @@ func emitNeg(id string, k *negCase, st *hx.Stats) string {
 			st.Count("N_kind_" + strconv.Itoa(c.Kind))
 			if strings.Count(c.Header, ",") >= 15 {
 				st.Count("N_header_ge16")
+			}
+			if strings.Count(c.Header, ",") >= 32 {
+				st.Count("N_header_ge33")
 			}
 		}
 	}
